@@ -63,19 +63,25 @@ func TString(t *ast.Type) string { panic("ghost") }
 //@ assume-nonnil-field ast.Argument.Value
 
 //@ func (*IntrospectionResolver).resolveType
-//@ props C07
+//@ props C07 C10
+// the schema is shared by every request (validation, planning, introspection): a resolver only writes into what it builds
+//@ stores fresh, elems(map[string]interface{})
 //@ requires ir != nil && schema != nil
 //@ assumes[schema] forallT(k, string, has(schema.Types, k) ==> schema.Types[k] != nil)
 //@ end
 
 //@ func (*IntrospectionResolver).ResolveIntrospectionFields
-//@ props C07
+//@ props C07 C10
+// the schema is shared by every request (validation, planning, introspection): a resolver only writes into what it builds
+//@ stores fresh, elems(map[string]interface{})
 //@ requires ir != nil && schema != nil
 //@ assumes[schema] forallT(k, string, has(schema.Types, k) ==> schema.Types[k] != nil)
 //@ end
 
 //@ func (*IntrospectionResolver).resolveSchema
-//@ props C07
+//@ props C07 C10
+// the schema is shared by every request (validation, planning, introspection): a resolver only writes into what it builds
+//@ stores fresh, elems(map[string]interface{})
 //@ requires ir != nil && schema != nil
 //@ assumes[schema] forallT(k, string, has(schema.Types, k) ==> schema.Types[k] != nil) && forallT(k, string, has(schema.Directives, k) ==> schema.Directives[k] != nil)
 // the names that are looked up again after sorting are keys of the map they were collected from
@@ -86,19 +92,25 @@ func TString(t *ast.Type) string { panic("ghost") }
 //@ end
 
 //@ func (*IntrospectionResolver).resolveField
-//@ props C07
+//@ props C07 C10
+// the schema is shared by every request (validation, planning, introspection): a resolver only writes into what it builds
+//@ stores fresh, elems(map[string]interface{})
 //@ requires ir != nil && schema != nil && field != nil
 //@ assumes[schema] forallT(k, string, has(schema.Types, k) ==> schema.Types[k] != nil)
 //@ end
 
 //@ func (*IntrospectionResolver).resolveDirective
-//@ props C07
+//@ props C07 C10
+// the schema is shared by every request (validation, planning, introspection): a resolver only writes into what it builds
+//@ stores fresh, elems(map[string]interface{})
 //@ requires ir != nil && schema != nil && directive != nil
 //@ assumes[schema] forallT(k, string, has(schema.Types, k) ==> schema.Types[k] != nil)
 //@ end
 
 //@ func (*IntrospectionResolver).resolveInputValue
-//@ props C07
+//@ props C07 C10
+// the schema is shared by every request (validation, planning, introspection): a resolver only writes into what it builds
+//@ stores fresh, elems(map[string]interface{})
 //@ requires ir != nil && schema != nil && arg != nil
 //@ assumes[schema] forallT(k, string, has(schema.Types, k) ==> schema.Types[k] != nil)
 //@ end
